@@ -393,6 +393,10 @@ func (s *Server) preempt(request *restful.Request, response *restful.Response) {
 		_ = response.WriteError(http.StatusInternalServerError, err)
 		return
 	}
+	if args.Pod == nil {
+		_ = response.WriteError(http.StatusBadRequest, fmt.Errorf("pod is empty"))
+		return
+	}
 	glog.V(5).Infof("POST preempt %v+", *args)
 	start := time.Now()
 	glog.V(3).Infof("preempt for pod %v/%v with %v/%v victims start at %d+",
